@@ -37,7 +37,7 @@ fn node_width(ctx: &Context, e: ExprRef) -> u32 {
 }
 
 /// compare a patronus value with the reference value; Some((kind, text)) on difference
-fn value_diff(ctx: &mut Context, got: &Value, want: &Val) -> Option<(&'static str, String)> {
+pub fn value_diff(ctx: &mut Context, got: &Value, want: &Val) -> Option<(&'static str, String)> {
     match (got, want) {
         (Value::BitVec(g), Val::B(w)) => {
             if g.width() != w.w {
